@@ -81,7 +81,7 @@ def closing_ops(reent, ops, results=None):
 def run_case(case, workdir):
     full = case['ops'] + (case['tail'] or [])
     mark(case)
-    res, env, flat = F.run_seq(case['reent'], case['faults'], full, workdir, expand=True)
+    res, env, flat = F.run_seq(case['reent'], case['faults'], full, workdir, expand=True, ctor=case.get('ctor'))
     return res, env, flat
 
 
@@ -109,6 +109,8 @@ def check_case(drv_answers, case, out, real):
     out.count('len:%d' % len(ops))
     out.count('faults:%d' % len(faults))
     out.count('with-blocks:%d' % sum(1 for o in ops if o[0] == 'x'))
+    if case.get('ctor'):
+        out.count('constructor-default-timeout')
     for r in res:
         out.count('res:' + r.split('/')[0])
     return env
@@ -185,6 +187,20 @@ def _chunk(payload):
                 for _ in range(n):
                     ops.append(rng.choice(alpha))
                 cases.append({'reent': list(cfg), 'faults': [], 'ops': ops, 'tail': closing_ops(cfg, ops)})
+            # objects constructed with a default timeout (`FileLock(path, timeout=T)`): their plain acquire() and
+            # `with obj:` are timed; every short sequence with a with-block or a blocking acquire, and random ones
+            for cfg, ctor in (((False, False), (None, 120)), ((True, False), (120, None)), ((True, True), (0, 120))):
+                for n in (1, 2):
+                    for seq in itertools.product(ALPHABET_X, repeat=n):
+                        if part != 0 or not any(o[0] == 'x' or o[3] == 'b' for o in seq):
+                            continue
+                        ops = list(seq)
+                        cases.append({'reent': list(cfg), 'ctor': list(ctor), 'faults': [], 'ops': ops,
+                                      'tail': closing_ops(cfg, ops)})
+                for _ in range(100 if quick else 3000):
+                    ops = [rng.choice(ALPHABET_X) for _ in range(rng.randint(3, 10))]
+                    cases.append({'reent': list(cfg), 'ctor': list(ctor), 'faults': [], 'ops': ops,
+                                  'tail': closing_ops(cfg, ops)})
         else:  # faults: every single and double injection over short sequences
             L = 2 if quick else 3
             rng = rng_for(seed, 'c12f', part)
